@@ -142,6 +142,11 @@ def check_positions(ctx, fn, construct, self_call_names=("_call_binary",)):
     p1, p2 = ps[1], ps[2]
     env = {p1: {1}, p2: {2}}
     sites = 0
+    func_vars = set()
+    for n in walk_shallow(fn):
+        if isinstance(n, ast.Assign) and len(n.targets) == 1 and isinstance(n.targets[0], ast.Tuple) \
+                and len(n.targets[0].elts) == 2 and isinstance(n.value, ast.Subscript) and isinstance(n.targets[0].elts[1], ast.Name):
+            func_vars.add(n.targets[0].elts[1].id)
 
     def check_pair(a, b, what, node):
         nonlocal sites
@@ -171,9 +176,9 @@ def check_positions(ctx, fn, construct, self_call_names=("_call_binary",)):
                 cn = call_name(n) or ""
                 if cn.split(".")[-1] in self_call_names and len(n.args) == 2:
                     check_pair(n.args[0], n.args[1], "recursion", n)
-                elif len(n.args) == 2 and not n.keywords and (cn == "func" or "numspace" in un(n.func)):
+                elif len(n.args) == 2 and not n.keywords and (cn in func_vars or "numspace" in un(n.func)):
                     check_pair(n.args[0], n.args[1], "call:" + ("by-name" if "numspace" in un(n.func) else "direct"), n)
-            elif isinstance(n, ast.Subscript) and un(n.value) == "self" and isinstance(n.slice, ast.Tuple) \
+            elif isinstance(n, ast.Subscript) and un(n.value) == ps[0] and isinstance(n.slice, ast.Tuple) \
                     and len(n.slice.elts) == 2:
                 check_pair(n.slice.elts[0], n.slice.elts[1], "lookup", n)
 
